@@ -8,7 +8,11 @@
       [filter_map_comm], [least_fix_le], [exhaustive_ext];
    2. the search space: [other_offsets_spec], [search_space_spec];
    3. dominance of the offsets outside the search space: [edf_rhs_step], [edf_dominated];
-   4. [edf_generic_exhaustive], [edf_generic_no_panic]. *)
+   4. [edf_generic_exhaustive], [edf_generic_no_panic];
+   5. [edf_generic_total]: with the truncated subtraction tua (A + 1) - rem (saturating_sub in
+      edf/fully_nonpreemptive.rs and edf/limited_preemptive.rs), monotone request-bound functions
+      alone exclude a panic and make the result independent of the build profile: the task under
+      analysis need not be able to release a job (arrival::Never, sparse ApproximatedPoisson). *)
 From Coq Require Import List NArith Lia Bool.
 From RTA.Model Require Import Base FixedPoint Analyses.
 From RTA.Spec Require Import Exhaustive.
@@ -199,8 +203,7 @@ Section EDF.
 
   Lemma edf_rta_g : forall dbg A, edf_rta dbg use_blocking rem tua D others limit A = g A.
   Proof.
-    intros dbg A. unfold edf_rta, g. pose proof (rem_lt_tua A) as Hrem.
-    destruct (N.ltb_spec (tua (A + 1)) rem) as [Hlt|_]; [lia|].
+    intros dbg A. unfold edf_rta, g.
     fold rhs. rewrite (ded_search_least_fix dbg limit (rhs A) (edf_rhs_mono A) (edf_rhs_pos A)).
     destruct (least_fix limit (rhs A)) as [AF|]; reflexivity.
   Qed.
@@ -398,3 +401,126 @@ Section EDF.
 End EDF.
 Print Assumptions edf_generic_exhaustive.
 Print Assumptions edf_generic_no_panic.
+
+(* ------------------------------------------------------------------------------------------ *)
+(* 5. totality from monotonicity alone                                                         *)
+(* ------------------------------------------------------------------------------------------ *)
+
+Lemma ded_search_swo : forall dbg limit w, mono w ->
+  ded_search dbg limit w = search_with_offset (fun d => d) 0 limit w.
+Proof.
+  intros dbg limit w Hm. unfold ded_search.
+  assert (Hinv : forall d t : N, (fun d => d) d <= t <-> d <= (fun d => d) t) by (intros; reflexivity).
+  apply (search_dbg_irrelevant (fun d => d) (fun d => d) Hinv eq_refl (fun t => N.le_refl _) w Hm).
+Qed.
+
+Lemma ded_search_no_panic : forall dbg limit w, mono w -> ded_search dbg limit w <> RPanic.
+Proof.
+  intros dbg limit w Hm. rewrite (ded_search_swo dbg limit w Hm).
+  assert (Hinv : forall d t : N, (fun d => d) d <= t <-> d <= (fun d => d) t) by (intros; reflexivity).
+  apply (swo_no_panic (fun d => d) (fun d => d) Hinv w Hm 0 limit (N.le_0_l _)).
+Qed.
+
+Lemma all_some_other_offsets : forall D L others,
+  exists os, all_some (map (edf_other_offsets D L) others) = Some os.
+Proof.
+  intros D L others. induction others as [|o l (os & IH)]; [exists []; reflexivity|].
+  cbn [map all_some]. rewrite IH. unfold edf_other_offsets, offsets_of_steps.
+  destruct (L =? 0); eexists; reflexivity.
+Qed.
+
+Lemma edf_search_space_some : forall tua_steps D others L,
+  exists ss, edf_search_space tua_steps D others L = Some ss.
+Proof.
+  intros tua_steps D others L. unfold edf_search_space.
+  destruct (all_some_other_offsets D L others) as (os & ->).
+  unfold offsets_of_steps. eexists. reflexivity.
+Qed.
+
+Section EDFTotal.
+  Variables (use_blocking : bool) (rem : N) (tua : N -> N) (tua_steps : N -> list N) (D : N).
+  Variable others : list edf_other.
+  Variable limit : N.
+  Hypothesis tua_mono : mono tua.
+  Hypothesis others_mono : forall o, In o others -> mono (o_rbf o).
+
+  Lemma edf_bw_mono_gen : mono (edf_bw_rhs tua others).
+  Proof.
+    intros a b Hab. unfold edf_bw_rhs.
+    pose proof (tua_mono a b Hab).
+    assert (sumN (map (fun o => o_rbf o a) others) <= sumN (map (fun o => o_rbf o b) others)).
+    { apply sumN_map_le. intros o Ho. apply (others_mono o Ho). exact Hab. }
+    lia.
+  Qed.
+
+  Lemma edf_rhs_mono_gen : forall A, mono (edf_rhs use_blocking rem tua D others A).
+  Proof.
+    intros A a b Hab. unfold edf_rhs, edf_hep.
+    assert (sumN (map (fun o => o_rbf o (N.min a (A + 1 + D - o_dl o))) others)
+            <= sumN (map (fun o => o_rbf o (N.min b (A + 1 + D - o_dl o))) others)).
+    { apply sumN_map_le. intros o Ho. apply (others_mono o Ho). lia. }
+    lia.
+  Qed.
+
+  (* the outcome for one offset: mentions neither dbg nor RPanic *)
+  Definition t_edf_rta (A : N) : result :=
+    rbind (search_with_offset (fun d => d) 0 limit (edf_rhs use_blocking rem tua D others A))
+          (fun AF => ROk ((AF - A) + rem)).
+
+  Lemma edf_rta_t : forall dbg A,
+    edf_rta dbg use_blocking rem tua D others limit A = t_edf_rta A.
+  Proof.
+    intros dbg A. unfold edf_rta, t_edf_rta.
+    rewrite (ded_search_swo dbg limit _ (edf_rhs_mono_gen A)). reflexivity.
+  Qed.
+
+  Lemma t_edf_rta_not_panic : forall l, existsb is_panic (map t_edf_rta l) = false.
+  Proof.
+    induction l as [|A l IH]; [reflexivity|].
+    cbn [map existsb]. rewrite IH, orb_false_r. unfold t_edf_rta.
+    pose proof (ded_search_no_panic false limit _ (edf_rhs_mono_gen A)) as Hnp.
+    rewrite (ded_search_swo false limit _ (edf_rhs_mono_gen A)) in Hnp.
+    destruct (search_with_offset _ 0 limit _) as [AF|o li|]; [reflexivity|reflexivity|congruence].
+  Qed.
+
+  (* the whole analysis: mentions neither dbg nor RPanic *)
+  Definition t_edf : result :=
+    rbind (search_with_offset (fun d => d) 0 limit (edf_bw_rhs tua others)) (fun L =>
+      match edf_search_space tua_steps D others L with
+      | None => ROk 0
+      | Some offs => max_response_time (map t_edf_rta offs)
+      end).
+
+  Lemma edf_generic_t : forall dbg,
+    edf_generic dbg use_blocking true rem tua tua_steps D others limit = t_edf.
+  Proof.
+    intros dbg. unfold edf_generic, t_edf.
+    rewrite (ded_search_swo dbg limit _ edf_bw_mono_gen).
+    destruct (search_with_offset _ 0 limit _) as [L|o li|]; cbn [rbind negb]; try reflexivity.
+    destruct (edf_search_space_some tua_steps D others L) as (ss & ->).
+    rewrite (map_ext _ _ (edf_rta_t dbg)). reflexivity.
+  Qed.
+
+  Lemma t_edf_not_panic : t_edf <> RPanic.
+  Proof.
+    unfold t_edf.
+    pose proof (ded_search_no_panic false limit _ edf_bw_mono_gen) as Hnp.
+    rewrite (ded_search_swo false limit _ edf_bw_mono_gen) in Hnp.
+    destruct (search_with_offset _ 0 limit _) as [L|o li|]; cbn [rbind]; [|discriminate|congruence].
+    destruct (edf_search_space_some tua_steps D others L) as (ss & ->).
+    rewrite (mrt_spec _ (t_edf_rta_not_panic ss)).
+    destruct (find is_err (map t_edf_rta ss)) as [e|] eqn:E; [|discriminate].
+    apply find_some in E. destruct E as (_ & E).
+    destruct e as [r|o li|]; [discriminate|discriminate|discriminate E].
+  Qed.
+
+  (* C20 for the EDF skeleton without any assumption on the arrivals of the task under analysis *)
+  Theorem edf_generic_total : forall dbg,
+    edf_generic dbg use_blocking true rem tua tua_steps D others limit <> RPanic /\
+    edf_generic dbg use_blocking true rem tua tua_steps D others limit
+    = edf_generic (negb dbg) use_blocking true rem tua tua_steps D others limit.
+  Proof.
+    intros dbg. rewrite !edf_generic_t. split; [exact t_edf_not_panic|reflexivity].
+  Qed.
+End EDFTotal.
+Print Assumptions edf_generic_total.
